@@ -37,6 +37,9 @@ theories/Alloc.vos theories/Alloc.vok theories/Alloc.required_vos: theories/Allo
 theories/AllocInv.vo theories/AllocInv.glob theories/AllocInv.v.beautified theories/AllocInv.required_vo: theories/AllocInv.v theories/Base.vo theories/Vu64.vo gen/Consts.vo theories/Sizing.vo theories/Alloc.vo
 theories/AllocInv.vio: theories/AllocInv.v theories/Base.vio theories/Vu64.vio gen/Consts.vio theories/Sizing.vio theories/Alloc.vio
 theories/AllocInv.vos theories/AllocInv.vok theories/AllocInv.required_vos: theories/AllocInv.v theories/Base.vos theories/Vu64.vos gen/Consts.vos theories/Sizing.vos theories/Alloc.vos
+theories/AllocInv_proofs.vo theories/AllocInv_proofs.glob theories/AllocInv_proofs.v.beautified theories/AllocInv_proofs.required_vo: theories/AllocInv_proofs.v theories/Base.vo theories/Vu64.vo gen/Consts.vo theories/Sizing.vo theories/Alloc.vo theories/AllocInv.vo
+theories/AllocInv_proofs.vio: theories/AllocInv_proofs.v theories/Base.vio theories/Vu64.vio gen/Consts.vio theories/Sizing.vio theories/Alloc.vio theories/AllocInv.vio
+theories/AllocInv_proofs.vos theories/AllocInv_proofs.vok theories/AllocInv_proofs.required_vos: theories/AllocInv_proofs.v theories/Base.vos theories/Vu64.vos gen/Consts.vos theories/Sizing.vos theories/Alloc.vos theories/AllocInv.vos
 theories/Htx.vo theories/Htx.glob theories/Htx.v.beautified theories/Htx.required_vo: theories/Htx.v theories/Base.vo gen/Consts.vo
 theories/Htx.vio: theories/Htx.v theories/Base.vio gen/Consts.vio
 theories/Htx.vos theories/Htx.vok theories/Htx.required_vos: theories/Htx.v theories/Base.vos gen/Consts.vos
